@@ -608,6 +608,9 @@ func findingWhat(id string) string {
 }
 
 func writeEvidence(ck *Check, tier string, seed int64, r *Result, violations int) {
+	if strings.HasPrefix(ck.ID, "Z") {
+		return // debugging aids (ZSTEPS, ZC16) are not checks of a property: they leave no evidence file
+	}
 	samples := []any{}
 	for _, s := range r.Samples {
 		var v any
